@@ -8,7 +8,7 @@ whose rule matches. Entries with "expect": "held" are behaviour-preserving refac
 must NOT change the verdict. The scratch tree is removed at the end. Nothing here is used as
 evidence for a property; it tests the checker.
 
-usage: run.py [-k substring] [--shard i/n] [--keep]   (--shard runs every n-th variant starting at i, so that
+usage: run.py [-k substring] [--held] [--shard i/n] [--keep]   (--held: only the behaviour-preserving variants)   (--shard runs every n-th variant starting at i, so that
 n processes can share the work: for i in 0 1 2 3; do run.py --shard $i/4 & done)
 """
 import json, os, shutil, subprocess, sys, tempfile
@@ -46,6 +46,8 @@ def main():
     try:
         for idx, m in enumerate(muts):
             if sel and sel not in m["name"] and sel not in m["prop"]:
+                continue
+            if "--held" in sys.argv and m.get("expect") != "held":
                 continue
             if shard and idx % shard[1] != shard[0]:
                 continue
